@@ -93,7 +93,7 @@ Proof.
     split.
     + constructor; [nia|]. eapply Forall_impl; [|exact HF]. cbn. intros q Hq. nia.
     + cbn [map pairwise]. split; [|exact HP].
-      rewrite Forall_map. eapply Forall_impl; [|exact HF]. intros q Hq. left. cbn. lia.
+      rewrite Forall_map. eapply Forall_impl; [|exact HF]. intros q Hq. cbv beta in Hq. left. cbn. lia.
   - inversion H; subst. split; constructor.
 Qed.
 
@@ -135,7 +135,7 @@ Section Oracle.
     (forall b, In b (blocks h) -> 0 < snd b /\ exists r, In r (fl_regs (h_fl h)) /\ inside b r).
 
   Lemma HInv_init : HInv h_init.
-  Proof. repeat split; cbn; auto; intros b []. Qed.
+  Proof. split; [exact I|]. split; [exact I|]. intros b0 []. Qed.
 
   (** adding blocks that all lie in a fresh region *)
   Lemma HInv_new_region h h' a len newb :
@@ -193,7 +193,7 @@ Section Oracle.
           destruct (carve CARVE_FUEL (a + 2 ^ i) (a + PAGE_SIZE) (2 ^ i)) as [ps|] eqn:Ecv; [|discriminate].
           inversion Hst; subst h'; clear Hst.
           replace (a + PAGE_SIZE) with ((a + 2 ^ i) + (2 ^ (12 - i) - 1) * 2 ^ i) in Ecv by lia.
-          destruct (carve_spec (2 ^ i) Hpos _ _ _ _ ltac:(lia) Ecv) as (HF & HPc).
+          destruct (carve_spec (2 ^ i) Hpos CARVE_FUEL (a + 2 ^ i) (2 ^ (12 - i) - 1) ps ltac:(lia) Ecv) as (HF & HPc).
           apply (HInv_new_region h _ a PAGE_SIZE ((a, 2 ^ i) :: map (fun q => (q, 2 ^ i)) ps));
             [exact Hinv|unfold PAGE_SIZE; lia|reflexivity|reflexivity| | |].
           -- unfold blocks; cbn [h_live h_fl fl_lists map app].
@@ -202,7 +202,7 @@ Section Oracle.
              eapply perm_trans; [apply Permutation_app_swap_app|].
              apply Permutation_app_tail. apply Permutation_sym, Permutation_rev.
           -- cbn [pairwise]. split; [|exact HPc].
-             rewrite Forall_map. eapply Forall_impl; [|exact HF]. intros q Hq. left. cbn. lia.
+             rewrite Forall_map. eapply Forall_impl; [|exact HF]. intros q Hq. cbv beta in Hq. left. cbn. lia.
           -- intros b [<-|Hb].
              ++ cbn. unfold inside; cbn. lia.
              ++ apply in_map_iff in Hb. destruct Hb as (q & <- & Hq).
